@@ -37,7 +37,13 @@
 (*   failopen "default" | "no" | "yes"                                      *)
 (*   req     required_fields: "default" (From Subject) | "from" | "fst" (+To) *)
 (*           | "lc" (from subject, lower case)                              *)
-(*   subset  allow_body_subset: "absent" | "no" (the documented example)    *)
+(*   subset  allow_body_subset: "absent" | the value in the documented block *)
+(*                                                                         *)
+(* Every row also has  forged: Authentication-Results fields the CLIENT put *)
+(*   into the message: "none" | "own" (bearing the server's own authserv-id *)
+(*   and claiming spf=pass / dkim=pass for forged.example) | "owncase"      *)
+(*   (the id in upper case) | "ownver" (id followed by a version) |         *)
+(*   "foreign" (another server's id).                                       *)
 (*                                                                         *)
 (* Joint rows in = [tab |-> "joint", ...]: check.spf + check.dkim + the     *)
 (*   pipeline's DMARC on one message (the composition spf.md promises).     *)
@@ -47,7 +53,8 @@
 (*   stage  where the pipeline refused: "mail" | "rcpt" | "body" | "none"   *)
 (*   class  "accept" | "quarantine" | "permreject" | "tempreject"           *)
 (*   code, enh  SMTP code / enhanced code of a refusal (0, "" otherwise)    *)
-(*   ar     the Authentication-Results entries the target saw, in order:    *)
+(*   ar     the entries of the Authentication-Results fields bearing the    *)
+(*          server's authserv-id that the target saw, top to bottom:        *)
 (*          [m |-> method, v |-> value, a, b]  (spf: a = smtp.mailfrom,     *)
 (*          b = smtp.helo; dkim: a = header.d, b = header.i; dmarc:         *)
 (*          a = header.from), names lower-case A-labels                     *)
@@ -61,12 +68,17 @@
 (*                        fetched (temporary error) counts as broken, so    *)
 (*                        broken_sig_action is applied to it                *)
 (*   "NoBodySubset"       allow_body_subset (dkim.md example) is refused    *)
+(*   "ForgedArKept"       Authentication-Results fields of the client that  *)
+(*                        bear the server's own authserv-id are delivered   *)
+(*                        (RFC 7001 5: MUST be deleted)                     *)
 (***************************************************************************)
 EXTENDS Naturals, Sequences, FiniteSets, TLC, Json
 
 CONSTANTS MaxSig,   \* most DKIM-Signature fields per message (full product up to 2, multisets for 3)
           Devs,     \* deviations switched on in AsIs
-          Gen       \* TRUE: print one ROW line per input
+          Gen,      \* TRUE: print one ROW line per input
+          DocSubset \* the allow_body_subset line of the check.dkim block printed in
+                    \* docs/reference/checks/dkim.md: "absent" | "no" | "yes" (read from the docs by the check)
 
 VARIABLE in
 vars == <<in>>
@@ -109,6 +121,27 @@ Verdict(a, nat, stage, ar) ==
     [] OTHER                      -> Refuse(stage, IF HasReply(a) THEN ReplyOf(a) ELSE nat)
 Rejects == {"permreject", "tempreject"}
 
+
+-----------------------------------------------------------------------------
+(* Authentication-Results fields supplied by the client (RFC 7001 5 / RFC   *)
+(* 8601 5: an instance that claims, by its authserv-id, to come from inside *)
+(* the trust boundary MUST be deleted; docs/internals/specifications.md     *)
+(* lists RFC 7001 as implemented).                                          *)
+AuthServId == "mx.verif.example"          \* the pipeline's hostname
+ForgedKinds == {"own", "owncase", "ownver", "foreign"}
+ForgedClaims == "; spf=pass smtp.mailfrom=forged.example; dkim=pass header.d=forged.example"
+ForgedFields(f) == CASE f = "own"     -> <<AuthServId \o ForgedClaims>>
+                     [] f = "owncase" -> <<"MX.VERIF.EXAMPLE" \o ForgedClaims>>
+                     [] f = "ownver"  -> <<AuthServId \o " 1" \o ForgedClaims>>
+                     [] f = "foreign" -> <<"mail.elsewhere.example" \o ForgedClaims>>
+                     [] OTHER         -> <<>>
+ClaimsOwnId(f) == f \in {"own", "owncase", "ownver"}
+ForgedEntries == <<[m |-> "spf", v |-> "pass", a |-> "forged.example", b |-> ""],
+                   [m |-> "dkim", v |-> "pass", a |-> "forged.example", b |-> ""]>>
+(* what a delivered message shows under the server's id, given what the checks reported *)
+Shown(D, i, ar) == IF "ForgedArKept" \in D /\ ClaimsOwnId(i.forged) THEN ar \o ForgedEntries ELSE ar
+WithForged(D, i, r) == IF r.cfg = "ok" /\ r.class \in {"accept", "quarantine"}
+                       THEN [r EXCEPT !.ar = Shown(D, i, r.ar)] ELSE r
 
 -----------------------------------------------------------------------------
 (*                                   SPF                                   *)
@@ -263,9 +296,10 @@ JSigs(i) == CASE i.dk = "nosig"   -> <<>>
               [] i.dk = "bad_al"  -> <<[k |-> "badbody", d |-> JFromDom(i)]>>
               [] i.dk = "temp_al" -> <<[k |-> "temp", d |-> JFromDom(i)]>>
 JDkimView(i) == [tab |-> "dkim", sub |-> "joint", sigs |-> JSigs(i), act |-> "default",
-                 failopen |-> "yes", req |-> "default", subset |-> "absent"]
+                 failopen |-> "yes", req |-> "default", subset |-> "absent", forged |-> i.forged]
 JSpfView(i) == [tab |-> "spf", sub |-> "joint", res |-> i.res, how |-> i.how, act |-> i.act,
-                early |-> i.early, sender |-> i.sender, dm |-> i.dm, place |-> "global", conn |-> "tcp4"]
+                early |-> i.early, sender |-> i.sender, dm |-> i.dm, place |-> "global", conn |-> "tcp4",
+                forged |-> i.forged]
 JFound(i)   == i.dm \in {"none", "quarantine", "reject"}
 JDkimAl(i)  == i.dk = "pass_al"
 JSpfAl(i)   == i.res = "pass" /\ i.al
@@ -289,9 +323,9 @@ RuleJoint(D, i) ==
      ELSE Accept(JAr(i))
 
 -----------------------------------------------------------------------------
-RuleD(D, i) == CASE i.tab = "spf"  -> RuleSpf(D, i)
-                 [] i.tab = "dkim" -> RuleDkim(D, i)
-                 [] OTHER          -> RuleJoint(D, i)
+RuleD(D, i) == WithForged(D, i, CASE i.tab = "spf"  -> RuleSpf(D, i)
+                                   [] i.tab = "dkim" -> RuleDkim(D, i)
+                                   [] OTHER          -> RuleJoint(D, i))
 Rule(i) == RuleD({}, i)
 AsIs(i) == RuleD(Devs, i)
 
@@ -387,12 +421,22 @@ P_JointReported(i, o) == (IsJoint(i) /\ Delivered(o)) =>
                            /\ BagEq(ArOf(o, "dkim"), DkimAr(JDkimView(i)))
                            /\ LET ds == ArOf(o, "dmarc") IN Len(ds) = 1 /\ ds[1].v = JDmarcV(i)
 
-PredNames == {"ConfigAccepted", "SpfPassNoAction", "SpfNoIpNoAction", "SpfAction", "SpfDeferred",
+(* under the server's own authserv-id the message shows the results of the  *)
+(* checks that ran on it and nothing else                                   *)
+CountM(ar, m) == Cardinality({n \in DOMAIN ar : ar[n].m = m})
+(* the entries the configured checks report about the message of row i *)
+ReportAr(i) == CASE i.tab = "spf" -> SpfAr(i) [] i.tab = "dkim" -> DkimAr(i) [] OTHER -> JAr(i)
+P_ResultsOnlyOwn(i, o) == Delivered(o) =>
+                            /\ \A n \in DOMAIN o.ar : o.ar[n].m \in {"spf", "dkim", "dmarc"}
+                            /\ \A m \in {"spf", "dkim", "dmarc"} : CountM(o.ar, m) = CountM(ReportAr(i), m)
+
+PredNames == {"ConfigAccepted", "ResultsOnlyOwn", "SpfPassNoAction", "SpfNoIpNoAction", "SpfAction", "SpfDeferred",
               "SpfFreeDm", "SpfStage", "SpfReported",
               "DkimNoSig", "DkimTempClosed", "DkimGood", "DkimBroken", "DkimFailOpen", "DkimStage",
               "DkimReported", "JointVerdict", "JointDeferredEnforced", "JointReported"}
 Holds(n, i, o) ==
   CASE n = "ConfigAccepted"   -> P_ConfigAccepted(i, o)
+    [] n = "ResultsOnlyOwn"   -> P_ResultsOnlyOwn(i, o)
     [] n = "SpfPassNoAction"  -> P_SpfPassNoAction(i, o)
     [] n = "SpfNoIpNoAction"  -> P_SpfNoIpNoAction(i, o)
     [] n = "SpfAction"        -> P_SpfAction(i, o)
@@ -424,9 +468,11 @@ Explains(devSets, i, o) == {D \in devSets : SameOut(i, o, RuleD(D, i))}
 
 -----------------------------------------------------------------------------
 (* Input tables *)
-SpfRow(sub, rh, act, early, sender, dm, place, conn) ==
+SpfRowF(sub, rh, act, early, sender, dm, place, conn, forged) ==
   [tab |-> "spf", sub |-> sub, res |-> rh[1], how |-> rh[2], act |-> act, early |-> early,
-   sender |-> sender, dm |-> dm, place |-> place, conn |-> conn]
+   sender |-> sender, dm |-> dm, place |-> place, conn |-> conn, forged |-> forged]
+SpfRow(sub, rh, act, early, sender, dm, place, conn) ==
+  SpfRowF(sub, rh, act, early, sender, dm, place, conn, "none")
 
 (* (a) every outcome x every action x enforce_early x null / non-null sender x DMARC situation *)
 InSpfMain ==
@@ -450,8 +496,14 @@ InSpfConn ==
     in = SpfRow("conn", <<res, IF res = "pass" THEN "ip" ELSE CHOOSE h \in HowOf(res) : TRUE>>, act, early,
                 "plain", "norecord", "global", conn)
 
-DkimRow(sub, sigs, act, fo, req, subset) ==
-  [tab |-> "dkim", sub |-> sub, sigs |-> sigs, act |-> act, failopen |-> fo, req |-> req, subset |-> subset]
+DkimRowF(sub, sigs, act, fo, req, subset, forged) ==
+  [tab |-> "dkim", sub |-> sub, sigs |-> sigs, act |-> act, failopen |-> fo, req |-> req, subset |-> subset,
+   forged |-> forged]
+DkimRow(sub, sigs, act, fo, req, subset) == DkimRowF(sub, sigs, act, fo, req, subset, "none")
+(* (j) Authentication-Results fields supplied by the client *)
+InSpfForged ==
+  \E res \in {"pass", "fail"}, early \in {"no", "yes"}, sender \in {"plain", "null"}, f \in ForgedKinds :
+    in = SpfRowF("forged", <<res, "all">>, "quarantine", early, sender, "norecord", "global", "tcp4", f)
 SigsOf(ks) == [n \in DOMAIN ks |-> [k |-> KindSeq[ks[n]], d |-> SigDoms[n]]]
 FailOpens == {"default", "no", "yes"}
 Reqs == {"default", "from", "fst"}
@@ -465,18 +517,19 @@ InDkimTwo ==
   \E a \in 1..NKinds, b \in 1..NKinds, act \in {"default", "quarantine", "reject", "reject4"},
      fo \in FailOpens, req \in Reqs :
     in = DkimRow("two", SigsOf(<<a, b>>), act, fo, req, "absent")
-(* (g) every multiset of three, in an order chosen by a hash of the row *)
-Rotate(s, k) == [j \in 1..Len(s) |-> s[((j - 1 + k) % Len(s)) + 1]]
+(* (g) every ordered triple *)
 InDkimThree ==
   MaxSig >= 3 /\
   \E a \in 1..NKinds, b \in 1..NKinds, c \in 1..NKinds, act \in {"quarantine", "reject"},
-     fo \in FailOpens, req \in Reqs :
-    /\ a <= b /\ b <= c
-    /\ in = DkimRow("three", SigsOf(Rotate(<<a, b, c>>, a + 2 * b + 3 * c)), act, fo, req, "absent")
+     fo \in FailOpens, req \in {"default", "from"} :
+    in = DkimRow("three", SigsOf(<<a, b, c>>), act, fo, req, "absent")
+InDkimForged ==
+  \E ks \in {<<>>, <<1>>, <<6>>, <<6, 1>>}, f \in ForgedKinds :
+    in = DkimRowF("forged", SigsOf(ks), "quarantine", "default", "default", "absent", f)
 (* (h) the configuration block of dkim.md as printed there *)
 InDkimDoc ==
   \E ks \in {<<>>, <<1>>, <<NKinds>>, <<6>>}, act \in {"default", "reject"} :
-    in = DkimRow("doc", SigsOf(ks), act, "no", "fst", "no")
+    in = DkimRow("doc", SigsOf(ks), act, "no", "default", DocSubset)
 
 (* (i) the composition *)
 InJoint ==
@@ -485,7 +538,12 @@ InJoint ==
      dk \in {"nosig", "pass_al", "pass_un", "bad_al", "temp_al"} :
     in = [tab |-> "joint", sub |-> "joint", res |-> res,
           how |-> IF res = "pass" THEN "ip" ELSE CHOOSE h \in HowOf(res) : TRUE,
-          act |-> act, early |-> early, sender |-> sender, al |-> al, dm |-> dm, dk |-> dk]
+          act |-> act, early |-> early, sender |-> sender, al |-> al, dm |-> dm, dk |-> dk, forged |-> "none"]
+InJointForged ==
+  \E res \in {"pass", "fail"}, dm \in {"norecord", "quarantine"}, dk \in {"nosig", "pass_al", "bad_al"},
+     f \in ForgedKinds :
+    in = [tab |-> "joint", sub |-> "forged", res |-> res, how |-> "all",
+          act |-> "ignore", early |-> "no", sender |-> "plain", al |-> TRUE, dm |-> dm, dk |-> dk, forged |-> f]
 
 -----------------------------------------------------------------------------
 (* The world of a row: what the harness builds (configuration, message, DNS) *)
@@ -557,19 +615,22 @@ KeyZone(sigs) ==
 Chk(mod, place, cfg) == [mod |-> mod, place |-> place, cfg |-> cfg]
 WorldOf(i) ==
   CASE i.tab = "spf" ->
-        [checks |-> <<Chk("spf", i.place, SpfCfg(i))>>, pdmarc |-> FALSE, conn |-> i.conn, helo |-> Helo,
+        [checks |-> <<Chk("spf", i.place, SpfCfg(i))>>, pdmarc |-> FALSE, hostname |-> AuthServId,
+         forged |-> ForgedFields(i.forged), conn |-> i.conn, helo |-> Helo,
          sender |-> SenderAddr(i.sender), utf8 |-> i.sender = "idn",
          from |-> [shape |-> FromShape(i.dm), dom |-> FromDomOfDm(i.dm)],
          sigs |-> <<>>, zone |-> SpfZone(i) \o DmarcZone(i.dm)]
     [] i.tab = "dkim" ->
-        [checks |-> <<Chk("dkim", "global", DkimCfg(i))>>, pdmarc |-> FALSE, conn |-> "tcp4", helo |-> Helo,
+        [checks |-> <<Chk("dkim", "global", DkimCfg(i))>>, pdmarc |-> FALSE, hostname |-> AuthServId,
+         forged |-> ForgedFields(i.forged), conn |-> "tcp4", helo |-> Helo,
          sender |-> SenderAddr("plain"), utf8 |-> FALSE,
          from |-> [shape |-> "one", dom |-> "from.example"],
          sigs |-> i.sigs, zone |-> KeyZone(i.sigs)]
     [] OTHER ->
         [checks |-> <<Chk("spf", "global", SpfCfg(JSpfView(i))),
                       Chk("dkim", "global", <<Dir("fail_open", <<"yes">>)>>)>>,
-         pdmarc |-> TRUE, conn |-> "tcp4", helo |-> Helo,
+         pdmarc |-> TRUE, hostname |-> AuthServId, forged |-> ForgedFields(i.forged),
+         conn |-> "tcp4", helo |-> Helo,
          sender |-> SenderAddr(i.sender), utf8 |-> FALSE,
          from |-> [shape |-> "one", dom |-> JFromDom(i)],
          sigs |-> JSigs(i),
@@ -577,8 +638,8 @@ WorldOf(i) ==
                   \o (IF JFound(i) THEN <<Z("_dmarc." \o JFromDom(i), "", DmarcTxt(i.dm))>> ELSE <<>>)]
 
 -----------------------------------------------------------------------------
-Init == InSpfMain \/ InSpfSender \/ InSpfPlace \/ InSpfConn
-        \/ InDkimOne \/ InDkimTwo \/ InDkimThree \/ InDkimDoc \/ InJoint
+Init == InSpfMain \/ InSpfSender \/ InSpfPlace \/ InSpfConn \/ InSpfForged
+        \/ InDkimOne \/ InDkimTwo \/ InDkimThree \/ InDkimDoc \/ InDkimForged \/ InJoint \/ InJointForged
 Next == FALSE /\ UNCHANGED in      \* one state per input (CHECK_DEADLOCK FALSE)
 Spec == Init /\ [][Next]_vars
 
